@@ -32,20 +32,27 @@ def Tensor.denseAll (t : Tensor R) : List R :=
   let ms := t.modes
   (allIdx t.shape).map fun idx => denseA ms idx
 
-/-- tabulate a 3-index function into an array-backed closure (identity in range) -/
-def memo3 (d1 d2 d3 : Nat) (f : Nat → Nat → Nat → R) : Nat → Nat → Nat → R :=
-  let arr : Array R := Array.ofFn (n := d1 * d2 * d3) fun k => f (k.val / (d2 * d3)) (k.val / d3 % d2) (k.val % d3)
-  fun a j b => if a < d1 ∧ j < d2 ∧ b < d3 then arr.getD ((a * d2 + j) * d3 + b) 0 else f a j b
+/-- the entries of a 3-index function on a box, row-major, as DATA -/
+def tab3 (d1 d2 d3 : Nat) (f : Nat → Nat → Nat → R) : Array R :=
+  Array.ofFn (n := d1 * d2 * d3) fun k => f (k.val / (d2 * d3)) (k.val / d3 % d2) (k.val % d3)
 
-def memo2 (d1 d2 : Nat) (f : Nat → Nat → R) : Nat → Nat → R :=
-  let arr : Array R := Array.ofFn (n := d1 * d2) fun k => f (k.val / d2) (k.val % d2)
-  fun a b => if a < d1 ∧ b < d2 then arr.getD (a * d2 + b) 0 else f a b
+def tab2 (d1 d2 : Nat) (f : Nat → Nat → R) : Array R :=
+  Array.ofFn (n := d1 * d2) fun k => f (k.val / d2) (k.val % d2)
 
+/-- re-materialise a core into an array-backed closure (identity in range).  The array is bound by a `let` in front of the
+    CONSTRUCTOR, so it is computed once and captured by the closure (a definition that returns a function would be eta-expanded
+    by the compiler and rebuild the array on every call). -/
 def Core.memo : Core R → Core R
-  | .tt r0 s r1 f => .tt r0 s r1 (memo3 r0 s r1 f)
-  | .cp s r f => .cp s r (memo2 s r f)
+  | .tt r0 s r1 f =>
+    let arr := tab3 r0 s r1 f
+    .tt r0 s r1 (fun a j b => if a < r0 ∧ j < s ∧ b < r1 then arr.getD ((a * s + j) * r1 + b) 0 else f a j b)
+  | .cp s r f =>
+    let arr := tab2 s r f
+    .cp s r (fun a b => if a < s ∧ b < r then arr.getD (a * r + b) 0 else f a b)
 
-def Fac.memo (U : Fac R) : Fac R := { U with f := memo2 U.rows U.cols U.f }
+def Fac.memo (U : Fac R) : Fac R :=
+  let arr := tab2 U.rows U.cols U.f
+  { U with f := fun a b => if a < U.rows ∧ b < U.cols then arr.getD (a * U.cols + b) 0 else U.f a b }
 
 def TMode.memo (m : TMode R) : TMode R := { core := m.core.memo, U := m.U.map Fac.memo }
 
